@@ -177,6 +177,24 @@ def run(ctx):
                 except Exception as e:
                     c0["err"] = "%s: %s" % (type(e).__name__, str(e)[:200]); c0["post"] = project(cur)
                 out.append(c0)
+            if h < 6:
+                # export in the ORIGINAL scale (unscale=True) with every combination of the optional label columns, the label columns put
+                # back by hand where they were left out, and the frame read again: the matrix read back holds the raw values
+                import pandas
+                tc, gc = [("taxa", "taxa_grp"), (None, None), ("taxa", None), (None, "taxa_grp"), ("taxa", "taxa_grp"), (None, None)][h]
+                c2 = {"id": len(out) + 1, "cls": clsname, "qual": cls.to_pandas.__qualname__, "op": "construct",
+                      "form": "to_pandas(unscale=True,taxa_col=%s,taxa_grp_col=%s)->from_pandas" % (tc, gc),
+                      "mut": False, "ix": [], "del": [], "pos": [], "blk": [], "pre": ids0, "err": None, "tab": TABLE}
+                try:
+                    df2 = cur.to_pandas(taxa_col=tc, taxa_grp_col=gc, unscale=True)
+                    if tc is None:
+                        df2.insert(0, "taxa", list(cur.taxa))
+                    if gc is None and cur.taxa_grp is not None:
+                        df2.insert(1, "taxa_grp", list(cur.taxa_grp))
+                    c2["post"] = project(cls.from_pandas(df2, taxa_grp_col="taxa_grp" if cur.taxa_grp is not None else None))
+                except Exception as e:
+                    c2["err"] = "%s: %s" % (type(e).__name__, str(e)[:200]); c2["post"] = project(cur)
+                out.append(c2)
             # truncation in place: the worst (or best) taxa for the first trait are removed from the matrix itself, down to one half
             # and down to a single taxon (all retained values then lie on one side of the former mean)
             pre_t = project(cur)
